@@ -316,6 +316,40 @@ C19_V(S, S2, c, e) ==
                    ELSE S2.sess[b].uid = u)
 
 -----------------------------------------------------------------------------
+(* C16 - responses leak neither password correctness when locked nor account     *)
+(* existence: two-run non-interference as a STATE predicate, the observable       *)
+(* outcome of a request being a pure function (Apply) of state and request.       *)
+(* (The byte-level comparison on the code is the forked paired replay of          *)
+(* `abdrive ni`; this is the design-level statement over every reachable state.)  *)
+
+ClientView(S, c, e) ==
+  LET r == Apply(S, c, e) IN
+  [class |-> r.resp.class, loc |-> r.resp.loc, sess |-> r.st.sess[e.b], cookie |-> r.st.cookie[e.b]]
+
+WouldLock(c, ur, now) ==
+  Has(c, "lock") /\ (IF now - ur.last <= c.lockWindow THEN ur.att + 1 ELSE 1) >= c.lockAfter
+
+NIViolations(S, c) ==
+  LET known  == {u \in Pids : S.db[u].ex /\ S.db[u].pw >= 1}
+      ghosts == {g \in Pids : ~S.db[g].ex}
+      login(b, p, w) == [E0 EXCEPT !.act = "LoginPost", !.b = b, !.pid = p, !.pw = w]
+      otpl(b, p)     == [E0 EXCEPT !.act = "OtpLoginPost", !.b = b, !.pid = p, !.tok = -1]
+      rec(b, p)      == [E0 EXCEPT !.act = "RecoverStart", !.b = b, !.pid = p]
+  IN
+  V("C16.lockedHidesPasswordCorrectness",
+    \A u \in known, b \in Browsers :
+       Has(c, "auth") /\ Has(c, "lock") /\ Locked(S.db[u], S.now) /\ (Has(c, "confirm") => S.db[u].conf)
+         => ClientView(S, c, login(b, u, S.db[u].pw)) = ClientView(S, c, login(b, u, -1)))
+  \cup V("C16.recoverHidesExistence",
+    \A u \in known, g \in ghosts, b \in Browsers :
+       Has(c, "recover") => ClientView(S, c, rec(b, u)) = ClientView(S, c, rec(b, g)))
+  \cup V("C16.failedLoginHidesExistence",
+    \A u \in known, g \in ghosts, b \in Browsers :
+       ~(Has(c, "lock") /\ Locked(S.db[u], S.now)) /\ ~WouldLock(c, S.db[u], S.now)
+         => /\ (Has(c, "auth") => ClientView(S, c, login(b, u, -1)) = ClientView(S, c, login(b, g, -1)))
+            /\ (Has(c, "otp") => ClientView(S, c, otpl(b, u)) = ClientView(S, c, otpl(b, g))))
+
+-----------------------------------------------------------------------------
 (* C17 - secrets are never stored or logged in recoverable form; mailed tokens   *)
 (* leave only in the e-mail addressed to the account.  r.leaks is filled by the  *)
 (* harness scanner (every plaintext secret it typed or was shown, in several     *)
